@@ -34,6 +34,9 @@ claimed = {
  "C10": dict(level="fault_enumeration", technique="property-based testing (rapid) of generated histories + exhaustive enumeration of every truncation offset of the last append (crash points); list-model oracle; native fuzzing of file contents in the thorough tier",
    text="For each generated history every byte offset of the last record is used as a crash point (exhaustively for records up to 600 bytes, first/last 96 bytes plus spread offsets beyond): reopen must succeed, keep the completed entries in order, and a later append must be durable. The histories themselves are sampled, the crash points per history are enumerated: fault enumeration.",
    note="Models a process death as a prefix of the single O_APPEND write; no claims about kernel or disk failure. API-only (NewHistoryFromFile, Write, Len, GetLine).", ref="DESIGN.md §3 C10"),
+ "C11": dict(level="exploration", technique="property-based testing (rapid) with fault injection: generated buffer shapes x modes x open helpers x exit paths (accepts, interrupts, EOF, failing editor, panicking command, injected read error); oracle termios before == after, emulated cursor on a fresh row, default cursor style",
+   text="Every way out of Readline is a generated exit path; the child reports tcgetattr before and after the call, and the VT100 emulator fed with everything the library wrote gives the cursor position, the row contents and the last cursor-style sequence at the moment the call returned (screens are snapshotted when the return marker comes out of the pty).",
+   note=RIG_NOTE, ref="DESIGN.md §3 C11"),
  "C12": dict(level="exploration", technique="property-based testing (rapid): grammar-derived inputrc texts with generated mutations, raw bytes and include graphs, parsed in a child process under a watchdog; native fuzzing (go test -fuzz) in the thorough tier",
    text="Generated-input search for crashes, stack overflows and non-termination of the inputrc parser over mutated grammar-derived programs, raw bytes, option combinations and include graphs with cycles; the call must return nil or an error. Exploration: the input space is unbounded and the oracle is a totality predicate.",
    note="Parse runs in the child process (stack overflow is fatal, loops need a watchdog); inputs bounded to ~1 MiB so a 10 s limit is not honest slowness.", ref="DESIGN.md §3 C12"),
